@@ -35,7 +35,7 @@ func constsOf(c *Ctx, rel string, named *types.Named) map[string]constant.Value 
 func runC14(c *Ctx, tier string) {
 	r := NewReport("C14", "other", tier, c)
 	r.Explanation = "Structural conditions for a faithful, reversible JSON form, decided from the code: (1) labels: the decision table of LintStatus.String evaluated on every declared status constant and on out-of-range values yields the published label per constant (reserved, NA, NE, pass, info, warn, error, fatal), non-empty and pairwise distinct, and \"\" otherwise; (2) label-table: the initialiser of StatusLabelToLintStatus has exactly one entry X.String() → X per declared constant; (3) codec: MarshalJSON encodes String(); UnmarshalJSON stores the looked-up status when the label is found and returns a non-nil error otherwise (decision table); the method sets make encoding/json use them; (4) tags: every exported field of ResultSet, LintResult, LintMetadata and Profile that must round-trip has a JSON key that is not \"-\" and is unique within its struct (embedded fields included); LintResult.LintMetadata and the two dates are \"-\"; function-typed fields of the three lint structs are \"-\" (otherwise Encode fails and the listing loses the line); (5) listing: the decision table of Registry.WriteJSON (loops unrolled twice) encodes each element of certificate, CRL and OCSP Lints() exactly once and nothing else; (6) LintSource decodes through its own UnmarshalJSON, whose accepted set is every declared source. Does not decide the behaviour of encoding/json itself (U+FFFD substitution, escaping, number formatting)."
-	r.Rule("labels; label-table; codec; tags; listing; source-codec")
+	r.Rule("labels; label-table; codec; tags; listing; source-codec; codec-census; round-trip-total: no member of ResultSet / LintResult has a decoder that rejects values its encoder writes")
 	r.Trusted = []string{"encoding/json honours MarshalJSON/UnmarshalJSON methods and struct tags as documented", "go/ssa"}
 
 	c14Labelling(c, r)
@@ -440,6 +440,18 @@ func c14Tags(c *Ctx, r *Report) {
 				r.Bad("tags", sp.name+"."+f.Name(), f.Pos(), fmt.Sprintf("fields %s and %s share the JSON key %q: encoding/json drops both", prev, f.Name(), key))
 			}
 			keys[key] = f.Name()
+			// result sets are re-read by consumers for ANY registry (downstream lints
+			// with their own sources included): a member whose decoder rejects values
+			// its encoder emits makes such a set unreadable. The only hand-written
+			// decoder shown total on its encoder's image is LintStatus's (codec rule +
+			// C01: seven statuses); LintSource's rejects every undeclared source.
+			if sp.name == "ResultSet" || sp.name == "LintResult" {
+				if bad := partialDecoderIn(f.Type(), map[types.Type]bool{}); bad != "" {
+					r.Bad("round-trip-total", sp.name+"."+f.Name(), f.Pos(), fmt.Sprintf("member %q of %s is (or contains) a %s, whose UnmarshalJSON returns an error for values its encoder writes (any value that is not a declared constant): a result set produced with a registry holding such a lint can be written but not read back", key, sp.name, bad))
+				} else {
+					r.OK("round-trip-total", sp.name+"."+f.Name(), f.Pos(), false, "")
+				}
+			}
 			// func / chan typed fields cannot be encoded
 			switch f.Type().Underlying().(type) {
 			case *types.Signature, *types.Chan:
@@ -464,6 +476,46 @@ func c14Tags(c *Ctx, r *Report) {
 			r.Check(tag == "-", "tags", sp.name+"."+m, st.Field(i).Pos(), "excluded", "field "+m+" must be excluded from the JSON form (json:\"-\")")
 		}
 	}
+}
+
+// partialDecoderIn: t is, or contains (pointer, slice, array, map element, struct
+// field that is encoded), a module type with a hand-written UnmarshalJSON /
+// UnmarshalText other than LintStatus.
+func partialDecoderIn(t types.Type, seen map[types.Type]bool) string {
+	if seen[t] {
+		return ""
+	}
+	seen[t] = true
+	if n, ok := t.(*types.Named); ok && n.Obj().Pkg() != nil && isModPkg(n.Obj().Pkg()) {
+		for _, m := range []string{"UnmarshalJSON", "UnmarshalText"} {
+			if types.NewMethodSet(types.NewPointer(n)).Lookup(nil, m) != nil && n.Obj().Name() != "LintStatus" {
+				return relPkg(n.Obj().Pkg().Path()) + "." + n.Obj().Name()
+			}
+		}
+	}
+	switch u := t.Underlying().(type) {
+	case *types.Pointer:
+		return partialDecoderIn(u.Elem(), seen)
+	case *types.Slice:
+		return partialDecoderIn(u.Elem(), seen)
+	case *types.Array:
+		return partialDecoderIn(u.Elem(), seen)
+	case *types.Map:
+		if b := partialDecoderIn(u.Key(), seen); b != "" {
+			return b
+		}
+		return partialDecoderIn(u.Elem(), seen)
+	case *types.Struct:
+		for i := 0; i < u.NumFields(); i++ {
+			if !u.Field(i).Exported() || reflect.StructTag(u.Tag(i)).Get("json") == "-" {
+				continue
+			}
+			if b := partialDecoderIn(u.Field(i).Type(), seen); b != "" {
+				return b
+			}
+		}
+	}
+	return ""
 }
 
 func c14Listing(c *Ctx, r *Report) {
